@@ -9,27 +9,27 @@ NOTE = ("Trusted: go/packages+go/ssa v0.29.0, the symgo interpreter (fork of x/t
 
 claimed = {
  "C01": dict(level="translation_validation", design="4 C01", tech="translation validation: emitted Go vs. hand-written reference Go, both executed symbolically from go/ssa with symbolic runtime inputs + SMT (z3)",
-   text="fc is built from the current tree and run on a hand-kept corpus (let/closures, partial application, pipes, if/elif/else, &&/||, union and string match, records, tuples, slices, destructuring, interpolation, blocks as values, top-level variables); go build decides that the emitted Go compiles; then emitted functions and references written against strict left-to-right call-by-value semantics run symbolically on the same symbolic inputs and z3 discharges equal results and equal effect traces for all input values. Bound: the corpus; slices <= 3/4 elements."),
+   text="fc is built from the current tree and run on a hand-kept corpus (let/closures, partial application, pipes, if/elif/else, &&/||, union and string match, records, tuples, slices, destructuring, interpolation, blocks as values, top-level variables); go build decides that the emitted Go compiles; then emitted functions and references written against strict left-to-right call-by-value semantics run symbolically on the same symbolic inputs and z3 discharges equal results and equal effect traces for all input values. Plus the generated family G01: 24 (quick) / 160 (thorough) random let-normal-form programs printed once as Folang and once as reference Go. Bound: the corpus and the generated programs; slices <= 3/4 elements."),
  "C02": dict(level="translation_validation", design="4 C02", tech="SSA symbolic execution of the real unifier against a reference mgu (symbolic variable names) + go/types signature pins + annotation-erasure runs of the whole compiler + SMT (z3)",
    text="Four parts. (1) The real unifyType/updateResolver/resolveType run on generated type pairs (depth 1 x 1, three type variables whose names are symbolic bytes) against an independent Robinson unifier: same resolved type on both sides, equal to the mgu up to renaming, symmetric; relation chains in every order. (2) InferLfd hoists leftover variables to T0,T1,... by first occurrence (parameters, then result). (3) 19 functions from the documentation's inference promises are transpiled by the freshly built fc and pinned by Go assignments that type-check iff type-parameter count/order and every parameter/result type are the principal ones (go build decides). (4) 9 functions x every subset of their redundant annotations erased emit the same Go."),
  "C03": dict(level="translation_validation", design="4 C03", tech="translation validation: hand-written Go client / generated foreign-call family against emitted Go, executed symbolically + SMT (z3); go/types decides 'client compiles'",
    text="A declaration corpus (records, generic records, unions with/without payload, generic unions, top-level funcs/vars, tuples) is transpiled by the freshly built fc and linked with a hand-written Go client that uses only the documented names; go build decides that the client compiles, symgo that it computes what the documentation implies. A generated family of 58 foreign-call forms (arity 1..4 x arguments at the binding x direct/partial/piped, package _ and named package, explicit type arguments) is compared with an asymmetric reference for all argument values."),
  "C05": dict(level="model_checking", design="4 C05", tech="SSA symbolic execution of the real main() under a map-iteration-order oracle (nondeterministic choice per range-over-map), cross-path output comparison",
-   text="The real main/transpileFiles run from go/ssa on a template set with every map iteration order turned into a choice of the engine (all permutations for <= 3 entries, insertion/reverse/rotate above) inside a window of 4 (quick) / 5 (thorough) consecutive iteration events that slides over all events of the run, plus two global strategies; all explored paths must agree on exit status and output files. A difference is confirmed against the real binary (repeated runs, then a dict shim with sorted/reversed/rotated enumeration) before it is reported."),
+   text="The real main/transpileFiles run from go/ssa on a template set with every map iteration order turned into a choice of the engine (all permutations for <= 3 entries, insertion/reverse/rotate above) inside a window of 4 (quick) / 5 (thorough) consecutive iteration events that slides over all events of the run, plus two global strategies; all explored paths must agree on exit status and output files. Site lemmas run the consumers of dict.Keys/Values/KVs (record-literal lookup, equivalence-set union and registration, exhaustiveness) on dictionaries with symbolic keys under all six orders inside one path. A difference is confirmed against the real binary (repeated runs, then a dict shim with sorted/reversed/rotated enumeration) before it is reported."),
  "C06": dict(level="model_checking", design="4 C06", tech="SSA symbolic execution: byte-level scanner/column lemma + whole-parser runs with every line's indentation a symbolic integer + SMT (z3)",
-   text="Two lemmas. (A) For every buffer of <= 4 (quick) / 6 (thorough) symbolic bytes the real scanners and tkzNext/newTkz/tkzNextNOL treat blanks, tabs and comments as transparent, a token is a function of the bytes from its begin on, and col is the true column. (B) The real parser+emitter run on templates in line-start normal form with the column of every token = canonical offset + a symbolic indentation per line, constrained only by the indentation tree (unbounded amounts); optional line breaks, blank lines and comments are choices; z3 shows every offside comparison one-sided and the emitted Go equal to the canonical layout's on every feasible path; a converse template checks that a dedented line ends its block."),
+   text="Two lemmas. (A) For every buffer of <= 4 (quick) / 6 (thorough) symbolic bytes the real scanners and tkzNext/newTkz/tkzNextNOL treat blanks, tabs and comments as transparent, a token is a function of the bytes from its begin on, and col is the true column. (B) The real parser+emitter run on templates in line-start normal form with the column of every token = canonical offset + a symbolic indentation per line, constrained only by the indentation tree (unbounded amounts); optional line breaks, blank lines and comments are choices; z3 shows every offside comparison one-sided and the emitted Go equal to the canonical layout's on every feasible path; a converse template checks that a dedented line ends its block; a structured byte-level lemma covers comments in context."),
  "C07": dict(level="model_checking", design="4 C07", tech="SSA symbolic execution of the real main() twice per path (minimal package vs. variant context) with symbolic identifiers + SMT (z3)",
-   text="For three target definitions the real main() runs on the minimal package and on a variant with unrelated definitions (function and record names are 3 symbolic bytes each) present or not at several places, independent dependencies reordered, and the sequence cut into up to 2 (quick) / 3 (thorough) files plus a .foi file; z3 discharges equality of the target's Go text (temporaries renumbered) and the gen_X.go-per-X.fo file discipline on every path."),
+   text="For three target definitions the real main() runs on the minimal package and on a variant with unrelated definitions (function and record names are 3 symbolic bytes each) present or not at several places, independent dependencies reordered, and the sequence cut into up to 2 (quick) / 3 (thorough) files plus a .foi file; z3 discharges equality of the target's Go text (temporaries renumbered) and the gen_X.go-per-X.fo file discipline on every path. A long-history harness puts 45 unrelated type groups and functions before / between / in an earlier file."),
  "C08": dict(level="model_checking", design="4 C08", tech="SSA symbolic execution of tokenizer+parser+inference+emitter over symbolic operator bytes and symbolic precedences + SMT (z3)",
    text="Chains of up to 3 (quick) / 4 (thorough) binary operators whose spellings are symbolic bytes constrained to the 12 non-pipe operators run through the whole real pipeline; z3 prunes/decides every spelling path and the emitted return expression must equal a reference precedence-climbing fold over the published table (operand forms: atom, application, not, parentheses; optional line breaks). A second level writes symbolic ranks 1..6 into the real binOpMap and checks the grouping against the reference fold for every rank table at once."),
  "C09": dict(level="model_checking", design="4 C09", tech="SSA symbolic execution of the real main() over a virtual file system; arm names with symbolic digit bytes + SMT (z3)",
-   text="Programs assembled from choices (1..3 cases quick / 4 thorough, every arm subset/order/duplication, default yes/no, bind/_/none forms, three contexts, nested generic case) run through the real main(); accept <=> default or cover is asserted as a formula over the symbolic arm-name bytes, together with exit status, diagnostic (names the file and a really uncovered case), no output on reject, and the never-reached fallback exactly when there is no default."),
+   text="Programs assembled from choices (1..3 cases quick / 4 thorough, every arm subset/order/duplication, default yes/no, bind/_/none forms, three contexts, nested generic case) run through the real main(); accept <=> default or cover is asserted as a formula over the symbolic arm-name bytes, together with exit status, diagnostic (names the file and a really uncovered case), no output on reject, and the never-reached fallback exactly when there is no default. A second harness runs two matches on one union per program (two functions, nested, nested before an outer default arm, two files) with every pair of arm subsets."),
  "C15": dict(level="model_checking", design="4 C15", tech="SSA symbolic execution of the whole compiler on generated type expressions; symbolic identifier bytes + SMT (z3)",
    text="Type expression trees generated from choices (all trees of depth 1 + nesting spines of depth 2 quick; depth 2 + spines of depth 3 thorough) are printed as Folang and as the reference Go type, placed in each of the 5 syntactic positions and compiled by the real pipeline; one family has an identifier of 3..6 symbolic lower-case bytes so that base-type mapping, pass-through and rejection of unknown names are decided by z3 for all identifiers."),
  "C10": dict(level="model_checking", design="4 C10", tech="SSA symbolic execution + SMT (z3); cmp.Equal contract model, native go-cmp replay",
-   text="Bounded symbolic execution of the real frt.OpEqual/OpNotEqual on the Go representations of first-order Folang values (ints, strings, bools, tuples, records with upper/lower-case fields, unions, slices from four producers, nestings to depth 2) with symbolic leaves; z3 discharges no-panic, agreement with a per-type structural-equality reference, negation, symmetry, reflexivity. Bound: slice lengths 0..2."),
+   text="Bounded symbolic execution of the real frt.OpEqual/OpNotEqual on the Go representations of first-order Folang values (ints, strings, bools, tuples, records with upper/lower-case fields, unions, slices from four producers, nestings to depth 2) with symbolic leaves; z3 discharges no-panic, agreement with a per-type structural-equality reference, negation, symmetry, reflexivity; an end-to-end part runs Folang programs through the freshly built fc with operands from the real slice library. Bound: slice lengths 0..2."),
  "C11": dict(level="model_checking", design="4 C11", tech="SSA symbolic execution of scanner+emitter over symbolic literal bytes + SMT (z3)",
-   text="For each of the four literal forms the body is N symbolic bytes (N=4 quick / 6 thorough) from the property's domain; the real scanner and emission path (scanTokenAt, ExprToGo, ParseSInterP, sinterpToGo) run symbolically, and z3 discharges 'Go-unquote(emitted) [+ real frt.SInterP on symbolic hole values] == denote(body)' on every path."),
+   text="For each of the four literal forms the body is N symbolic bytes (N=4 quick / 6 thorough) from the property's domain; the real scanner and emission path (scanTokenAt, ExprToGo, ParseSInterP, sinterpToGo) run symbolically, and z3 discharges 'Go-unquote(emitted) [+ real frt.SInterP on symbolic hole values] == denote(body)' on every path; an end-to-end part runs literal programs (multi-byte UTF-8, multi-line) through the freshly built fc."),
  "C12": dict(level="model_checking", design="4 C12", tech="SSA symbolic execution + SMT (z3), inductive step over aliased windows",
    text="Bounded symbolic execution of every exported pkg/slice function from go/ssa: one inductive step from an arbitrary aliased pre-state (symbolic backing array, every window offset/len/cap); z3 discharges 'no element of a pre-existing array changed' for all element values; two-step histories as cross-check. Bound: array of 4 (quick) / 5 (thorough) elements."),
  "C13": dict(level="model_checking", design="4 C13", tech="SSA symbolic execution + SMT (z3) against list-model postconditions",
@@ -37,7 +37,7 @@ claimed = {
  "C14": dict(level="model_checking", design="4 C14", tech="SSA symbolic execution + SMT (z3) against model map / direct string specs",
    text="Bounded symbolic execution of pkg/dict (operation sequences vs. a parallel-slices model, symbolic keys/values), pkg/strings (each wrapper vs. a direct specification, strings <= 3/4 symbolic bytes), pkg/buf and the frt helpers (Pipe, thunk conditionals, tuples, Sprintf/SInterP on every basic kind); z3 discharges each postcondition."),
  "C16": dict(level="model_checking", design="4 C16", tech="SSA symbolic execution with instruction budget as unwinding assertion + SMT (z3); native timeout replay",
-   text="Scanner totality at byte level: every scanner/tokenizer entry on every buffer of <= N symbolic bytes (N=5 quick / 7 thorough) and offset returns or panics inside the instruction budget, tokens lie inside the buffer and nextToken makes progress; a budget-exhausting path is replayed natively under a timeout and reported only if the real code hangs."),
+   text="Scanner totality at byte level: every scanner/tokenizer entry on every buffer of <= N symbolic bytes (N=5 quick / 7 thorough) and offset returns or panics inside the instruction budget, tokens lie inside the buffer and nextToken makes progress; a budget-exhausting path is replayed natively under a timeout and reported only if the real code hangs. Two further groups run the real main() over a virtual file system: driver discipline (0..2 arguments x 7 file kinds x unwritable destination) and damaged programs (truncation at every offset, token deletion/duplication/swap, indentation damage, bodies built from names in scope, 1 (quick) / 2 (thorough) arbitrary symbolic bytes at four places of a program)."),
  "C17": dict(level="translation_validation", design="4 C17", tech="three-way translation validation: tinyfo's Go == reference == fc's Go, executed symbolically + SMT (z3)",
    text="A tinyfo-profile corpus (annotated functions, arithmetic/comparison, &&/||, if/elif/else, records, unions with match, slices, pairs, destructuring, pipes, partial application, package_info calls) is transpiled by the freshly built tinyfo and by fc; each output is linked with the same hand-written references and executed symbolically on symbolic inputs; z3 discharges equal results and equal effect traces for both, hence tinyfo == fc on the corpus."),
  "C18": dict(level="model_checking", design="4 C18", tech="SSA symbolic execution of the real main() over a virtual file system + SMT (z3)",
